@@ -1661,6 +1661,7 @@ func (nz *normalizer) collectBoolHoists() map[string][]srcEdit {
 				return true
 			})
 			var uses []*ast.Ident
+			var writes []ast.Node
 			inCond := map[*ast.Ident]bool{}
 			var markCond func(e ast.Expr)
 			markCond = func(e ast.Expr) {
@@ -1683,9 +1684,29 @@ func (nz *normalizer) collectBoolHoists() map[string][]srcEdit {
 			ast.Inspect(f.Body, func(n ast.Node) bool {
 				switch x := n.(type) {
 				case *ast.FuncLit:
+					// a closure may run at any time: it must not write the variable or an operand
 					ast.Inspect(x, func(m ast.Node) bool {
-						if id, isId := m.(*ast.Ident); isId && (info.Uses[id] == c.obj || operands[info.Uses[id]]) {
-							ok = false // the variable or an operand is shared with a closure
+						switch y := m.(type) {
+						case *ast.AssignStmt:
+							for _, l := range y.Lhs {
+								if r := rootObj(info, l); r != nil && (operands[r] || r == c.obj) {
+									ok = false
+								}
+							}
+						case *ast.IncDecStmt:
+							if r := rootObj(info, y.X); r != nil && (operands[r] || r == c.obj) {
+								ok = false
+							}
+						case *ast.UnaryExpr:
+							if y.Op == token.AND {
+								if r := rootObj(info, y.X); r != nil && (operands[r] || r == c.obj) {
+									ok = false
+								}
+							}
+						case *ast.Ident:
+							if info.Uses[y] == c.obj {
+								ok = false // read by a closure: keep the variable as it is
+							}
 						}
 						return true
 					})
@@ -1706,18 +1727,18 @@ func (nz *normalizer) collectBoolHoists() map[string][]srcEdit {
 						if lo == c.obj && x != c.def {
 							ok = false
 						}
-						if r := rootObj(info, l); r != nil && operands[r] && x.Pos() > c.def.Pos() {
-							ok = false
+						if r := rootObj(info, l); r != nil && operands[r] && x != c.def {
+							writes = append(writes, x)
 						}
 					}
 				case *ast.IncDecStmt:
-					if r := rootObj(info, x.X); r != nil && operands[r] && x.Pos() > c.def.Pos() {
-						ok = false
+					if r := rootObj(info, x.X); r != nil && operands[r] {
+						writes = append(writes, x)
 					}
 				case *ast.RangeStmt:
 					for _, e := range []ast.Expr{x.Key, x.Value} {
 						if e != nil {
-							if r := rootObj(info, e); r != nil && operands[r] && x.Pos() > c.def.Pos() {
+							if r := rootObj(info, e); r != nil && operands[r] {
 								ok = false
 							}
 						}
@@ -1741,9 +1762,31 @@ func (nz *normalizer) collectBoolHoists() map[string][]srcEdit {
 			// a loop would let a later iteration's writes precede the definition: require that none
 			// of the operands is written at all when the definition sits in a loop
 			exprText := "(" + string(src[tf.Offset(c.expr.Pos()):tf.Offset(c.expr.End())]) + ")"
+			// a use can be replaced when no write of an operand lies on a path from the definition to it
+			g := f.Graph()
+			defSite := f.Find(func(n ast.Node) bool { return n == ast.Node(c.def) })
+			var writeSites []Site
+			for _, w := range writes {
+				writeSites = append(writeSites, f.Find(func(n ast.Node) bool { return n == w })...)
+			}
+			if len(defSite) != 1 || len(writeSites) != len(writes) {
+				continue
+			}
+			safeUse := func(u *ast.Ident) bool {
+				us := f.Find(func(n ast.Node) bool { return n == ast.Node(u) })
+				if len(us) != 1 {
+					return false
+				}
+				for _, w := range writeSites {
+					if pt, _ := g.Reach(w.After(), Cut{Stop: func(p Point, _ ast.Node) bool { return p == defSite[0].P }}, atSite(us[0])); pt != nil {
+						return false
+					}
+				}
+				return true
+			}
 			n := 0
 			for _, u := range uses {
-				if inCond[u] && u.Pos() > c.def.End() {
+				if inCond[u] && u.Pos() > c.def.End() && safeUse(u) {
 					out[tf.Name()] = append(out[tf.Name()], srcEdit{tf.Offset(u.Pos()), tf.Offset(u.End()), exprText})
 					n++
 				}
